@@ -1004,8 +1004,19 @@ func (p *ProjectRunner) UpdateProject(project *types.Project) (map[string]string
 		}
 		status[name] = types.ProcessUpdateRemoved
 	}
-	//Add new processes
+	//Add new processes, a dependency before its dependents: a new process looks
+	//for its dependencies as soon as it is added
+	_ = project.WithProcesses([]string{}, func(proc types.ProcessConfig) error {
+		if _, ok := newProcs[proc.ReplicaName]; ok {
+			p.addProcessAndRun(proc)
+			status[proc.ReplicaName] = types.ProcessUpdateAdded
+		}
+		return nil
+	})
 	for name, proc := range newProcs {
+		if _, ok := status[name]; ok {
+			continue
+		}
 		p.addProcessAndRun(proc)
 		status[name] = types.ProcessUpdateAdded
 	}
